@@ -2258,14 +2258,18 @@ where
         let mut offset_table = None;
 
         let mut fragments = C::new();
+        // whether the current item has not produced any value so far
+        let mut item_empty = false;
 
         for token in dataset {
             match token.context(ReadTokenSnafu)? {
                 DataToken::OffsetTable(table) => {
                     offset_table = Some(table);
+                    item_empty = false;
                 }
                 DataToken::ItemValue(data) => {
                     fragments.push(data);
+                    item_empty = false;
                 }
                 DataToken::ItemEnd => {
                     // at the end of the first item ensure the presence of
@@ -2273,9 +2277,16 @@ where
                     // are seen as compressed fragments
                     if offset_table.is_none() {
                         offset_table = Some(Vec::new())
+                    } else if item_empty {
+                        // an item of length zero after the offset table
+                        // is an empty fragment
+                        fragments.push(Vec::new());
                     }
+                    item_empty = false;
                 }
-                DataToken::ItemStart { len: _ } => { /* no-op */ }
+                DataToken::ItemStart { len: _ } => {
+                    item_empty = true;
+                }
                 DataToken::SequenceEnd => {
                     // end of pixel data
                     break;
